@@ -19,7 +19,7 @@ def S(rules, *, explanation, decides, not_decided, assumptions, level_text, leve
 
 PROPS = {
     "C01": S(
-        version.RULES + layout.RULES + formulas.RULES + [o.opc3_prologue, o.opc3b_fillers, o.int_intervals, o.exi1_producers, o.join1, o.alias1, o.opc5_version_coverage, o.opc6_exit_templates, o.opc8_jump_arithmetic, o.opc10_handler_queue_order, safety.snap, safety.eqkey1],
+        version.RULES + layout.RULES + formulas.RULES + [o.opc3_prologue, o.opc3b_fillers, o.opc3c_prologue_eval, o.int_intervals, o.exi1_producers, o.join1, o.alias1, o.opc5_version_coverage, o.opc6_exit_templates, o.opc8_jump_arithmetic, o.opc10_handler_queue_order, safety.snap, safety.eqkey1],
         explanation="Necessary conditions of 'contexts of a suspended frame are exact on CPython 3.9-3.12', decided from source: "
                     "partial evaluation of every sys.version_info branch over the four supported interpreters (every strict opcode lookup names an opcode that exists where it is reachable; "
                     "the ctypes module selected for V is one whose asserts hold for V; version-conditional names are bound wherever they are used); "
@@ -67,7 +67,7 @@ PROPS = {
         design_ref="DESIGN.md section 4, C05",
     ),
     "C08": S(
-        [o.opc2_target_decoder, o.opc3_prologue, o.opc3b_fillers, o.line1, o.fall1, version.ver1_opcodes, o.opc5_version_coverage, o.opc9_unpack_ex, o.opc10_handler_queue_order, o.opc11_step_semantics, safety.esc1, safety.eqkey1],
+        [o.opc2_target_decoder, o.opc3_prologue, o.opc3b_fillers, o.line1, o.fall1, version.ver1_opcodes, o.opc5_version_coverage, o.opc9_unpack_ex, o.opc10_handler_queue_order, o.opc11_step_semantics, o.opc3c_prologue_eval, safety.esc1, safety.eqkey1],
         explanation="Exhaustiveness of the `as`-target decoder against the compilers: the set of opnames with a (non-raising) case in describe_assignment_target is compared with every opname that the compiler of each supported interpreter "
                     "emits in the store sequence of an always-rendered target (387 generated targets x 4 scopes x 4 interpreters, plus every always-rendered `as` target of every with statement of the 3.11 and 3.12 standard libraries, delimited by instruction source positions; compile+dis only); with-prologue lengths and fillers per interpreter (16 generated layouts plus every with statement of those standard libraries); "
                     "start_line is taken from the line tracking updated before the with-opcode test; the local-name fallback applies only when varname is None and obj is known, by identity.",
